@@ -306,7 +306,12 @@ pub fn mutants(problem: &Value, solution: &Value) -> Vec<Mutant> {
                     if breaks.len() != 1 || breaks[0].get("places").is_none() {
                         continue;
                     }
-                    let departure = stops.first().and_then(|s| s["time"]["departure"].as_str()).and_then(parse_time).unwrap_or(0);
+                    // the tour departs when its departure activity ends (the first stop may serve jobs afterwards)
+                    let departure = stops
+                        .first()
+                        .and_then(|s| s["activities"][0]["time"]["end"].as_str().or_else(|| s["time"]["departure"].as_str()))
+                        .and_then(parse_time)
+                        .unwrap_or(0);
                     let is_offset = breaks[0]["time"].as_array().is_some_and(|t| t.first().is_some_and(|x| x.is_number()));
                     p_mut("misplaced-break", format!("tour{ti}.stop{si}.act{ai}.window-moved"), &|p| {
                         let t = &mut p["fleet"]["vehicles"][vt]["shifts"][shift_index]["breaks"][0]["time"];
@@ -321,7 +326,9 @@ pub fn mutants(problem: &Value, solution: &Value) -> Vec<Mutant> {
                         Some("skip-if-arrival-before-end") => window_end.is_some_and(|e| arrival > e),
                         _ => duration > 0.,
                     };
-                    if demanded {
+                    // only when later stops keep the reported end of the tour behind the break: taken out of the last stop,
+                    // the tour itself would end earlier and the break might not be owed any more
+                    if demanded && si + 1 < stops.len() {
                         s_mut("misplaced-break", format!("tour{ti}.stop{si}.act{ai}.removed"), &|s| {
                             let n = s["tours"][ti]["stops"][si]["activities"].as_array().map_or(0, |a| a.len());
                             if n <= 1 {
@@ -495,6 +502,17 @@ fn site_shape(solution: &Value, site: &str) -> String {
             } else if si == 0 && stops.len() > 1 {
                 out.push_str("|first-stop");
             }
+        } else if let Some(d) = num("dim") {
+            // per-tour site (load above capacity): where does the tour carry its maximum in that dimension?
+            let first_is = |si: usize, kind: &str| stops.get(si).is_some_and(|s| s["activities"][0]["type"].as_str() == Some(kind));
+            let load = |si: usize| stops[si]["load"][d].as_i64().unwrap_or(0);
+            let max = (0..stops.len()).map(load).max().unwrap_or(0);
+            let only_unjoined = (0..stops.len()).filter(|si| load(*si) == max).all(|si| (si == 0 || first_is(si, "reload")) && first_is(si + 1, "reload"));
+            if only_unjoined && stops.len() > 1 {
+                out.push_str("|interval-of-one-stop");
+            } else if (0..stops.len()).any(|si| has(si, "reload")) {
+                out.push_str("|tour-with-reload");
+            }
         } else if (0..stops.len()).any(|si| has(si, "reload")) {
             out.push_str("|tour-with-reload");
         }
@@ -533,10 +551,11 @@ fn rejection_class(problem: &Value, solution: &Value, error: &str) -> String {
         });
         return if explained { "unmatched-ambiguous-place-or-window".into() } else { "unmatched-unexplained".into() };
     }
-    if error.starts_with("load mismatch") || error.starts_with("load exceeds") {
+    let resource_complaint = error.starts_with("consumed more resource");
+    if error.starts_with("load mismatch") || error.starts_with("load exceeds") || resource_complaint {
         // a reload activity which is not the first activity of its stop: the checker splits tours by reload stops
         // ... or in the last stop of the tour (the interval after it has no leg at all)
-        let inside = solution["tours"].as_array().into_iter().flatten().filter(|t| t["vehicleId"].as_str().is_some_and(|v| error.contains(&format!("'{v}'")))).any(|t| {
+        let inside = solution["tours"].as_array().into_iter().flatten().filter(|t| resource_complaint || t["vehicleId"].as_str().is_some_and(|v| error.contains(&format!("'{v}'")))).any(|t| {
             let stops = t["stops"].as_array().cloned().unwrap_or_default();
             let is_reload = |a: &Value| a["type"].as_str() == Some("reload");
             stops.iter().any(|s| s["activities"].as_array().is_some_and(|a| a.iter().skip(1).any(is_reload)))
@@ -664,7 +683,17 @@ fn record(case: &W1Case, seed: u64, tier: Tier, only: Option<(&str, &str)>) -> C
         let by_construction = m.class == "broken-relation" || (m.class == "misplaced-break" && m.site.ends_with(".removed"));
         if !by_construction {
             let confirmed = match (crate::oracle::model::PModel::parse(prob, &case.matrices), crate::oracle::model::SSolution::parse(sol)) {
-                (Ok(pm), Ok(ss)) => !crate::oracle::check::check_all(&pm, &ss).0.is_empty(),
+                (Ok(pm), Ok(ss)) => {
+                    let issues = crate::oracle::check::check_all(&pm, &ss).0;
+                    if std::env::var_os("VSIM_DUMP").is_some() && only.is_some() {
+                        crate::say!("ORACLE on mutant {} {}: {:?}", m.class, m.site, issues.iter().map(|i| format!("{}:{} {}", i.prop, i.rule, i.msg)).collect::<Vec<_>>());
+                    }
+                    if m.class == "misplaced-break" {
+                        issues.iter().any(|i| i.rule == "break-window")
+                    } else {
+                        !issues.is_empty()
+                    }
+                }
                 (Ok(_), Err(_)) => true, // not even a well-formed solution document
                 (Err(_), _) => false,
             };
